@@ -674,6 +674,17 @@ Fixpoint hrk_b (h h' : list hentry) : bool :=
   | _, _ => false
   end.
 
+(* population_initialized of the Evolution inside an observation (first [extra] entry; through Deduping wrappers) *)
+Fixpoint obs_initialized (o : obsv) : bool :=
+  match o with
+  | Obs _ _ _ _ (i :: _) _ => (i =? 1)%Z
+  | Obs _ _ _ _ [] [x] => obs_initialized x
+  | _ => false
+  end.
+(* an initial individual whose reward has not arrived *)
+Definition inflight_initial (e : hentry) : bool :=
+  match snd e, dini (fst e) with None, Some true => true | _, _ => false end.
+
 Section Sim.
   Variable g : gen.
   Variable reward_of : Z -> Z.
@@ -720,7 +731,10 @@ Section Sim.
   Definition snapshot (r : run_st g) (h0 : list hentry) (next : option Z) (c : nat) : tr :=
     let rec := recovered g (r_hist g r) in
     L [e_obs (obs g (r_st g r)); e_obs (obs g rec);
-       elist eZ (if det then continue_from g 5 (r_st g r) else []);
+       (* inside the bootstrap window with rewards missing, the uninterrupted instance is asked as well *)
+       elist eZ (if det then continue_from g 5 (r_st g r)
+                 else if detinit && negb (obs_initialized (obs g (r_st g r))) && existsb inflight_initial (r_hist g r)
+                      then continue_init g 3 (r_st g r) else []);
        elist eZ (if det then continue_from g 5 rec else if detinit then continue_init g 5 rec else []);
        L (undelivered r next);
        L (proposal_time r h0);
